@@ -210,12 +210,34 @@ def run(prog):
     errs = []
     kids = prog.children(fn)
     used = False
+
+    def from_vm(t, depth=0):
+        for x in [strip(t)] + list(mir.subterms(t)):
+            if mir.is_call(x, "variable_mapping"):
+                return True
+            if isinstance(x, tuple) and x and x[0] == "mu" and depth < 3:      # a map that is extended inside a loop
+                init = te.mu_init.get((x[1], x[2]))
+                if init is not None and from_vm(init, depth + 1):
+                    return True
+        return False
+    for c in te.calls:                       # a lookup written in main itself (a `for` loop over the weights)
+        if c.callee.name == "get" and c.args and from_vm(c.args[0]):
+            used = True
     for k in kids:
+        caps = {}
+        for a in te.aggs:
+            t_ = a[1]
+            if isinstance(t_, tuple) and t_[0] == "agg" and t_[1] == "closure" and t_[2] == k.npath and len(t_) > 5 and t_[5]:
+                caps = dict(zip(t_[5], t_[4]))
         for c in k.terms.calls:
-            if c.callee.name == "get" and c.args and strip(c.args[0]) == ("upvar", "mapping"):
-                used = True
+            if c.callee.name == "get" and c.args:
+                r0 = strip(c.args[0])
+                while isinstance(r0, tuple) and r0 and r0[0] in ("ref", "deref"):
+                    r0 = strip(r0[1])
+                if r0 == ("upvar", "mapping") or (isinstance(r0, tuple) and r0 and r0[0] == "upvar" and r0[1] in caps and from_vm(caps[r0[1]])):
+                    used = True
     if not used:
-        errs.append("no weight is keyed through `mapping` (sexpr.variable_mapping())")
+        errs.append("?no weight is keyed through `mapping` (sexpr.variable_mapping())")
     # mapping local must be initialised from variable_mapping(sexpr)
     ok_map = False
     for d in fn.debug:
